@@ -2,6 +2,7 @@ import AsynqModel.Sexp
 import AsynqModel.Core.Machine
 import AsynqModel.Core.Wire
 import AsynqModel.Core.Spec
+import AsynqModel.Core.Inv
 /-! driver glue for mode `core` (properties C01-C08): replay a program in the machine with the implementation's
     flush choices, diff the traces event by event (projected to the events the property reads), evaluate the
     property's Spec observer on the implementation trace and on the model trace -/
@@ -110,6 +111,20 @@ def handle20 (id : Nat) (hdr : List Sexp) (body : List Sexp) : String :=
         | none => "ok"
         | some _ => "fail:behaviour-changes-under-debug-options"
       s!"R {id} CORR={cstr} SPEC={sp.1} SPECM={spm} | {d}{sp.2}"
+    | _, _ => s!"R {id} CORR=diff SPEC=ok SPECM=ok | unparsable cfg/tops"
+  | _ => s!"R {id} CORR=diff SPEC=ok SPECM=ok | unparsable header"
+
+/-- mode `coreinv`: model only; every candidate invariant after every step (default flush choices) -/
+def handleInv (id : Nat) (hdr : List Sexp) (_body : List Sexp) : String :=
+  match hdr with
+  | [.atom _, c, t] =>
+    match cfg? c, tops? t with
+    | some cfg, some tops =>
+      let (r, s) := Inv.runChecked 400000 0 (initState cfg tops [])
+      match r, s.stuck with
+      | some (i, name), _ => s!"R {id} CORR=ok SPEC=ok SPECM=fail:invariant-{name} | violated after step {i}"
+      | none, some m => s!"R {id} CORR=ok SPEC=ok SPECM=fail:model-stuck | {m}"
+      | none, none => s!"R {id} CORR=ok SPEC=ok SPECM=ok | "
     | _, _ => s!"R {id} CORR=diff SPEC=ok SPECM=ok | unparsable cfg/tops"
   | _ => s!"R {id} CORR=diff SPEC=ok SPECM=ok | unparsable header"
 
